@@ -432,6 +432,30 @@ def _c3_merge(seqs: list[list[str]]) -> list[str]:
     return res
 
 
+def literal_elements(prog: "Program", mod: "Module", expr: ast.expr, depth: int = 3) -> Optional[list[ast.expr]]:
+    """Elements of a tuple/list/set/frozenset literal, also when it is reached through a module-level name that is assigned
+    exactly once (`_OPEN = ("open", "to_review")`), possibly imported from another module of the repository."""
+    if isinstance(expr, (ast.Tuple, ast.List, ast.Set)):
+        return list(expr.elts)
+    if isinstance(expr, ast.Call) and isinstance(expr.func, ast.Name) and expr.func.id in ("frozenset", "set", "tuple", "list") and len(expr.args) == 1 and not expr.keywords:
+        return literal_elements(prog, mod, expr.args[0], depth)
+    if depth and isinstance(expr, (ast.Name, ast.Attribute)):
+        q = prog.resolve_expr_name(mod, expr)
+        if q and "." in q:
+            mname, name = q.rsplit(".", 1)
+            m2 = prog.modules.get(mname)
+            if m2 is not None and name in m2.constants:
+                n_assign = 0
+                for st in ast.walk(m2.tree):
+                    tg = st.targets if isinstance(st, ast.Assign) else ([st.target] if isinstance(st, (ast.AnnAssign, ast.AugAssign)) else [])
+                    n_assign += sum(1 for t in tg if isinstance(t, ast.Name) and t.id == name)
+                    if isinstance(st, ast.Global) and name in st.names:
+                        return None
+                if n_assign == 1:
+                    return literal_elements(prog, m2, m2.constants[name], depth - 1)
+    return None
+
+
 def dotted_name(expr: ast.AST) -> Optional[str]:
     parts = []
     while isinstance(expr, ast.Attribute):
